@@ -1,0 +1,46 @@
+//go:build verif
+
+package badger
+
+import "fmt"
+
+// Thin test-driver entry points for the /verif "crash" engine. They only call/read
+// production code and state.
+
+// VerifImmCount is len(db.imm): immutable memtables not yet flushed.
+func VerifImmCount(db *DB) int {
+	db.lock.RLock()
+	defer db.lock.RUnlock()
+	return len(db.imm)
+}
+
+// VerifActiveMemFid is the file id of the active memtable's WAL (0 when none).
+func VerifActiveMemFid(db *DB) int {
+	db.lock.RLock()
+	defer db.lock.RUnlock()
+	if db.mt == nil || db.mt.wal == nil {
+		return 0
+	}
+	return int(db.mt.wal.fid)
+}
+
+// VerifVlogFids lists the value-log file ids known to the value log, and maxFid.
+func VerifVlogFids(db *DB) ([]uint32, uint32) {
+	db.vlog.filesLock.RLock()
+	defer db.vlog.filesLock.RUnlock()
+	return db.vlog.sortedFids(), db.vlog.maxFid
+}
+
+// VerifVlogRewrite runs the production GC rewrite of one value-log file.
+func VerifVlogRewrite(db *DB, fid uint32) error {
+	db.vlog.filesLock.RLock()
+	lf := db.vlog.filesMap[fid]
+	db.vlog.filesLock.RUnlock()
+	if lf == nil {
+		return fmt.Errorf("no vlog file %d", fid)
+	}
+	return db.vlog.rewrite(lf)
+}
+
+// VerifMaxVersion is DB.MaxVersion().
+func VerifMaxVersion(db *DB) uint64 { return db.MaxVersion() }
